@@ -280,6 +280,13 @@ def run(ctx):
         return
     rng = ctx.rng
 
+    # ---- recorded finding: allocation size wraps in 32-bit SizeT for requests of >= 2^27..2^30 slots
+    wo, wf = core.run_lines(exe, ["htwrap x"])
+    if wo[0].startswith("FAULT"):
+        ctx.fail("alloc-size-wrap", "HList h; h.Reserve(1u<<30); h.Insert(\"a\") faults (%s): the allocation size wraps in 32-bit SizeT" % wo[0],
+                 {"line": "htwrap x", "stderr": wf[0][2] if wf else ""})
+    ctx.count("alloc-size-wrap-probe", 1, 1)
+
     # ---- the hash function: C++ vs model (vs the python copy used to pick colliding keys)
     hl = ["hthash " + ks(list(t)) for n in (0, 1) for t in itertools.product(range(256), repeat=n)]
     sub = [0, 1, 2, 31, 32, 65, 97, 98, 122, 126, 127, 128, 129, 200, 254, 255]
